@@ -10,7 +10,9 @@ import (
 	"strings"
 )
 
-var c18MarkerRe = regexp.MustCompile(`(?i)q(\d+)([<"'>&])`)
+// an invalid UTF-8 lead byte (or what a JSON encoder makes of it) may stand between the marker and
+// the character
+var c18MarkerRe = regexp.MustCompile(`(?i)q(\d+)(?:\x{FFFD}|\\ufffd)?([<"'>&])`)
 
 // c18Hit is one special character of a taint token found raw in a page.
 type c18Hit struct {
@@ -91,10 +93,15 @@ func c18InstanceStart(page []byte, pos int, id string) int {
 		found := false
 		for _, esc := range []string{"<", ">", "\"", "'", "&", "&lt;", "&gt;", "&#34;", "&#39;", "&amp;", "&quot;", "\\u003c", "\\u003e", "\\u0026", "\\\"", "-",
 			"＜", "＞", "＂", "＇", "＆", "﹤", "﹥", "﹠", "</td", "&lt;/td", "＜／td"} {
-			suffix := append(append([]byte{}, m...), []byte(esc)...)
-			if bytes.HasSuffix(lower[:pos], suffix) {
-				pos -= len(suffix)
-				found = true
+			for _, lead := range []string{"", "\xc3", "\xe9", "\xf1", "\xf5", "\xef\xbf\xbd", "\\ufffd"} {
+				suffix := append(append(append([]byte{}, m...), []byte(lead)...), []byte(esc)...)
+				if bytes.HasSuffix(lower[:pos], suffix) {
+					pos -= len(suffix)
+					found = true
+					break
+				}
+			}
+			if found {
 				break
 			}
 		}
